@@ -832,6 +832,124 @@ def r9(ctx, rep):
                         file=f["file"], line=n["l"], fn=f["path"])
 
 
+def r10(ctx, rep):
+    """End-to-end enumeration: every (parent, child, side) pair of PRQL binary operators, for every dialect:
+    the parenthesisation the generator decides (extracted strengths, associativity, template hole requirements)
+    against the grouping the SQL precedence oracle implies."""
+    rep.rule("C02.R10", "exhaustive (parent, child, side) x dialect: emitted SQL regroups to the PRQL operand tree", floor=6000)
+    O = ora("sql_precedence.json")
+    P = ora("prql_std.json")
+    syn = ctx.syn
+    sc = sql_scale(syn)
+    at, ad, _ = sc["assoc"]
+    fo = syn.fn("gen_expr::operator_from_name", crate="prqlc")
+    from_name, _ = tables.str_to_variant_table(fo)
+    order = O["order_tightest_first"]
+    rank = {}
+    for i, grp in enumerate(order):
+        for c in grp:
+            rank[c] = i  # smaller = tighter
+    safe = set(O["may_be_emitted_without_parens_on_the_right_at_equal_strength"])
+    variants = tables.enum_variants(syn.adt("BinOp", crate="prqlc_parser"))
+    dialects = [None] + sorted(dialect_names(ctx))
+
+    def sql_form(binop, dialect):
+        """-> dict(kind='op'|'template'|'atom', cls, strength, left_req, right_req, assoc)"""
+        name = P["binop_to_std"][binop]
+        if name in from_name:
+            v = from_name[name]
+            s_ = strength_of_class(sc, v)
+            return {"kind": "op", "cls": v, "strength": s_, "left_req": s_, "right_req": s_, "assoc": at.get(v, ad)}
+        impls = {d: i for d, i in sql_impls(ctx, name[4:])}
+        impl = impls.get(dialect) or impls.get(None)
+        if impl is None or impl["body"]["kind"] != "sstring":
+            return None
+        declared = impl["annotations"].get("binding_strength", 100)
+        a = sqltmpl.analyse(impl["body"]["items"])
+        params = [stdlib.short(p["name"]) for p in impl["params"]]
+        occ = {}  # param -> [(required strength, adjacent operator class, side of that operator)]
+        for h in a["holes"]:
+            if h["alone"]:
+                continue
+            try:
+                n = int(h["fmt"]) if h["fmt"] is not None else declared
+            except ValueError:
+                n = declared
+            if h["left_op"]:
+                _, c2 = template_strength(sc, O, h["left_op"])
+                occ.setdefault(h["name"], []).append((n, c2, "R"))
+            if h["right_op"] and h["right_op"] != "::":
+                _, c2 = template_strength(sc, O, h["right_op"])
+                occ.setdefault(h["name"], []).append((n, c2, "L"))
+            if h["prefix_op"]:
+                c2 = "UnaryMinus" if h["prefix_op"] in ("-", "+") else O["template_operator_class"].get(h["prefix_op"])
+                occ.setdefault(h["name"], []).append((n, c2, "R"))
+        if a["wrapped"] or not a["top_ops"]:
+            cls, strength_out = "atom", declared
+        else:
+            weakest = None
+            for t in a["top_ops"]:
+                s2, c2 = template_strength(sc, O, t["v"])
+                if t["role"] == "prefix" and t["v"] in ("-", "+"):
+                    s2, c2 = strength_of_class(sc, "UnaryMinus"), "UnaryMinus"
+                if s2 is not None and (weakest is None or s2 < weakest[0]):
+                    weakest = (s2, c2)
+            cls = weakest[1] if weakest else "atom"
+            strength_out = declared
+        return {"kind": "template", "cls": cls, "strength": strength_out,
+                "occ": [occ.get(p, []) for p in params]}
+
+    def needs_parens(child_strength, is_left, parent_strength, parent_assoc):
+        if child_strength > parent_strength:
+            return False
+        if child_strength < parent_strength:
+            return True
+        r3a = parent_assoc == "Both"
+        r3l = is_left and parent_assoc in ("Left", "Both")
+        r3r = (not is_left) and parent_assoc in ("Right", "Both")
+        return not (r3a or r3l or r3r)
+
+    n = 0
+    for dialect in dialects:
+        for Pn in variants:
+            pf = sql_form(Pn, dialect)
+            if pf is None:
+                continue
+            for Cn in variants:
+                cf = sql_form(Cn, dialect)
+                if cf is None:
+                    continue
+                for side in ("L", "R"):
+                    n += 1
+                    key = f"e2e:{dialect or 'base'}:{Pn}:{Cn}:{side}"
+                    # pow swaps operands: the PRQL left operand is the template's SECOND parameter
+                    tside = side
+                    if Pn == "Pow":
+                        tside = "R" if side == "L" else "L"
+                    if pf["kind"] == "op":
+                        checks = [(needs_parens(cf["strength"], tside == "L", pf["strength"], pf["assoc"]), pf["cls"], tside, pf["strength"])]
+                    else:
+                        idx = 0 if tside == "L" else 1
+                        occs = pf["occ"][idx] if idx < len(pf["occ"]) else []
+                        checks = [(needs_parens(cf["strength"], False, req, "Both"), ocls, oside, req) for req, ocls, oside in occs]
+                    bad = None
+                    for parens, pcls, pside, req in checks:
+                        if parens or cf["cls"] == "atom" or pcls is None:
+                            continue
+                        rp, rc = rank.get(pcls), rank.get(cf["cls"])
+                        if rp is None or rc is None:
+                            continue
+                        # the catch-all class (||, ~, REGEXP) mixes unrelated operators and is not judged at equal rank (see R4)
+                        if rc > rp or (rc == rp and pside == "R" and pcls not in safe and pcls != "other_operator"):
+                            bad = (pcls, req)
+                    if bad:
+                        rep.bad(key, f"dialect {dialect or 'generic'}: `{'(x ' + Cn + ' y) ' + Pn + ' z' if side == 'L' else 'x ' + Pn + ' (y ' + Cn + ' z)'}` is emitted without parentheses around the {Cn} operand "
+                                f"(child strength {cf['strength']}, required {bad[1]}), but in SQL `{cf['cls']}` does not bind tighter than the adjacent `{bad[0]}`: the operands regroup")
+                    else:
+                        rep.ok(key, nontrivial=bool(checks))
+    rep.note(f"{n} (dialect, parent, child, side) combinations enumerated")
+
+
 def run(ctx, rep):
-    for r in (r1, r2, r3, r4, r5, r6, r7, r8, r9):
+    for r in (r1, r2, r3, r4, r5, r6, r7, r8, r9, r10):
         rep.guard(r, ctx)
